@@ -54,49 +54,49 @@ CLAIMS = {
  "C03": ("finite-predicate path evaluation of proxy()/Handle/dialPeers with goroutine and deferred bodies evaluated in place",
          "Decided over every outcome of dialing, header writing, half-close support and retry: the tee chain, one copy-back per upstream and the pump over the complete upstream set; CloseWrite/Close on every upstream after the client "
          "finished and CloseWrite on the client after the upstreams finished; the WaitGroup/channel join before return and that the pump's signal cannot block ahead of the half-close; cleanup closes every dialed connection, "
-         "dialPeers leaks none on any failure path; prefetched bytes are handed on exactly once (Wrap/Read tables). Byte-exactness for all payloads and timings is not decided.",
+         "dialPeers leaks none on any failure path; prefetched bytes are handed on exactly once (Wrap/Read tables). Every connection wrapper a handler installs in front of the client socket passes the half-close on (offers CloseWrite, is unwrapped by the proxy, or exposes NetConn; the tee branch is a reviewed exception). Byte-exactness for all payloads and timings is not decided.",
          "DESIGN.md section 4 C03"),
  "C10": ("finite-predicate path evaluation of every selection policy over pools of 0..3 upstreams and all availability/count/random outcomes; truth table of available()",
          "Decided exhaustively within the bound: a policy only returns an upstream that available() accepted on that path, never dereferences an empty slot, returns nil when none is available and (first, random, least_conn) some "
          "upstream when one is; first picks the earliest, least_conn a minimal one; available = healthy and not full with every peer consulted; round_robin advances its counter per probe; ip_hash hashes only upstream and client. "
-         "Pool states (availability and, for least_conn, connection counts of every upstream) are fixed per evaluation; round_robin is evaluated for every starting counter residue and must return an upstream when one is available. Distributions and the stability of ip_hash under membership changes are not claimed.",
+         "Pool states (availability and, for least_conn, connection counts of every upstream) are fixed per evaluation; round_robin is evaluated for every starting counter residue and must return an upstream when one is available. The connection limit default of an upstream is the copy of unhealthy_connection_count and nothing else. Distributions and the stability of ip_hash under membership changes are not claimed.",
          "DESIGN.md section 4 C10"),
  "C11": ("pairing/path rules over go/ssa, who-may-write census of the counters, path evaluation of the retry loop and of healthy/full/available",
          "Decided: every remembered failure (+1) starts a goroutine that cannot end without the -1 on the same peer after waiting; counters are written only by their atomic add/CAS in countFail/countConn/setHealthy; "
          "the retry loop re-selects only after tryAgain()==true and gives up with the last error; on success each peer is counted +1, and -1 in the deferred cleanup together with closing every connection; active-check polarity; "
-         "the availability predicates consult every peer. tryAgain gives up iff time.Since(start) >= try_duration and otherwise waits try_interval or cancellation; no option defaulted after the upstreams are provisioned is read while provisioning them; every policy honours available(). The timing of the failure window is not decided.",
+         "the availability predicates consult every peer. tryAgain gives up iff time.Since(start) >= try_duration and otherwise waits try_interval or cancellation; no option defaulted after the upstreams are provisioned is read while provisioning them; every policy honours available(). countFailure remembers every failed dial while a fail duration is configured, whatever the counters say; the active check dials the address with the health port substituted at the moment the dial string is built. The timing of the failure window is not decided.",
          "DESIGN.md section 4 C11"),
  "C12": ("finite-predicate path evaluation of the proxy_protocol handler, allow list, tidyRules and dialPeers; constant/dominance rules for the version table",
          "Decided over every outcome: untrusted peers pass through untouched, parse errors stop the chain, accepted headers publish the parsed conn under the key GetConn reads and hand on Wrap(conn); Wrap hands no unread bytes on; "
          "each upstream gets exactly one header of the provisioned version built from GetConn(down) before relaying; the version comes from the placeholder-resolved option; allow-list semantics incl. non-IP peers; tidyRules loses no rule. "
-         "Header bytes themselves are the third-party library's.",
+         "An IP peer is refused only after every rule was asked; matchers keep no copy of the peer address on the connection and test the live, unmapped RemoteAddr. Header bytes themselves are the third-party library's.",
          "DESIGN.md section 4 C12"),
  "C17": ("finite-predicate path evaluation of throttledConn.Read and Handle over limiter presence, burst orderings and wait outcomes",
          "Decided for all orderings of len(p) and the bursts: batch = min(len(p), bursts), every present limiter is asked for exactly the batch before the single underlying read of exactly p[:batch], a failed wait reads nothing, "
-         "results pass through; Handle wraps the previous cx.Conn with the handler-wide limiter always and a fresh local limiter iff configured, honours latency and cancellation. The numeric bound itself relies on x/time/rate.",
+         "results pass through; Handle wraps the previous cx.Conn with the handler-wide limiter always and a fresh local limiter iff configured, honours latency and cancellation. Rate and burst of every limiter are exactly the configured options of its scope and default bursts derive from the rate of the same scope. The numeric bound itself relies on x/time/rate.",
          "DESIGN.md section 4 C17"),
  "C16": ("finite-predicate path evaluation of Socks5Handler.Provision over command lists and credential maps; who-may-call census",
          "Decided for command lists of 0..2 entries resolving to CONNECT/ASSOCIATE/BIND/empty/unknown and credential maps of 0 or 2 entries: the PermitCommand rule enables exactly the configured commands (default CONNECT+ASSOCIATE), "
          "any other resolved value fails provisioning, NoAuth is offered iff no credentials are configured and otherwise only user/password over the resolved map, both options reach NewServer; the package itself never dials or listens and Handle "
-         "only delegates to ServeConn. Command lists with repeated entries are part of the table; every account name is the resolved name stored under a non-empty test. Enforcement inside go-socks5 is trusted.",
+         "only delegates to ServeConn. Command lists with repeated entries are part of the table; every account name is the resolved name stored under a non-empty test. The credential store is the library's StaticCredentials or a module type whose Valid is evaluated on an account table and must accept exactly the configured pairs. Enforcement inside go-socks5 is trusted.",
          "DESIGN.md section 4 C16"),
  "C18": ("byte-layout abstract interpretation of parser and serialiser (fields tracked as byte ranges of a symbolic input of concrete length), exhaustive evaluation of the header byte codec, struct size computation",
          "Decided for 12 wire types of OpenVPN, WireGuard and RDP and every length at/around their size bounds: parse-then-serialise reproduces the input byte for byte on every accepting path, lengths outside the bounds are rejected on every path "
-         "(exact size for fixed-size types), no fixed-width decoding reads past its slice, the OpenVPN header byte round-trips for all 256 values, declared size constants equal encoded struct sizes. Winbox (value-dependent chunking) and "
+         "(exact size for fixed-size types), no fixed-width decoding reads past its slice, the OpenVPN header byte round-trips for all 256 values, declared size constants equal encoded struct sizes. The Winbox auth parser's field ranges tile the reassembled buffer (proved end-to-start). Winbox (value-dependent chunking) and "
          "serialise-then-parse of arbitrary field values are not decided.",
          "DESIGN.md section 4 C18"),
  "C07": ("AST extraction of cryptobyte read sequences from the repo's parser and from the toolchain's crypto/tls source (oracle parsed on every run); SSA dominance/provenance rules for the record gate, length and placeholders",
          "Decided: the hello is read only behind the record-type-22 gate with exactly the announced length; the fixed part and all 18 extension cases shared with crypto/tls perform the same ordered reads with the same case constants; "
          "each extension feeding ClientHelloInfo fills the field crypto/tls fills; placeholders and handshake sub-matchers use the parsed hello; both reads propagate need-more and the matcher does not consult the amount of buffered data. "
-         "The cipher-suite loop and every shared extension case have the same ordered effects (reads, tests, constants, appends, continue/return) as crypto/tls; no path to a matched verdict avoids the parse or a placeholder; the supported-versions fallback is applied on every way out of the parser. Value-level agreement over all hellos (the differential statement) is not decided.",
+         "The cipher-suite loop and every shared extension case have the same ordered effects (reads, tests, constants, appends, continue/return) as crypto/tls; no path to a matched verdict avoids the parse or a placeholder; the supported-versions fallback is applied on every way out of the parser. Record gate and exact-length read are decided by evaluating Match on fixed records. Value-level agreement over all hellos (the differential statement) is not decided.",
          "DESIGN.md section 4 C07"),
  "C14": ("field-access census over the matcher call graph, constant table comparison against an independent specification table, provenance lint for netip addresses, path evaluation of the DNS decision",
          "Decided: every configured filter field of the 20 matchers is consulted; pre-parsed filters are assigned during provisioning; 41 wire constants/byte strings/byte gates equal the specification table; addresses tested against CIDR "
-         "filters are in canonical form; the DNS allow/deny/default_deny/prefer_allow decision equals the documented table for every rule-hit combination. Verdict tables (path evaluation on first messages with fixed bytes, boundary and near-miss cases) for ssh, proxy_protocol, xmpp, socks4, socks5 and wireguard equal reference predicates; the RDP header predicates equal references written from MS-RDPBCGR/RFC 1006 over value tables; the clock matcher converts per connection; plain and regexp sibling filters test the same expression; OpenVPN TCP bounds are the datagram bounds plus the opcode byte. The matchers' verdict functions over all messages are not decided.",
+         "filters are in canonical form; the DNS allow/deny/default_deny/prefer_allow decision equals the documented table for every rule-hit combination. Verdict tables (path evaluation on first messages with fixed bytes, boundary and near-miss cases) for ssh, proxy_protocol, xmpp, socks4, socks5 and wireguard equal reference predicates; the RDP header predicates equal references written from MS-RDPBCGR/RFC 1006 over value tables; the clock matcher converts per connection; plain and regexp sibling filters test the same expression; OpenVPN TCP bounds are the datagram bounds plus the opcode byte. Decoded HTTP/2 header fields accumulate (Add, never Set with a data key). The matchers' verdict functions over all messages are not decided.",
          "DESIGN.md section 4 C14"),
  "C15": ("AST extraction of documented grammar vs. accepted option labels, struct tag census, codec field agreement, map-range determinism lint, registration census, nil-guard dominance rule for option handlers",
          "Decided: for 21 Caddyfile unmarshallers the documented option keywords equal the accepted labels; custom JSON codecs use one field in both directions; 30+ configuration structs are tagged name,omitempty; no slice is built in "
-         "map iteration order; every module type is registered and imported; option handlers never replace a configuration sub-object another option may have filled; merged global blocks get fresh server keys. Appends assign the field they extend; keyword shortcuts are compared after prefix stripping; duplicate-option flags are tested and set consistently; optional trailing arguments set their field only when present. Semantic equality of the adapted JSON "
+         "map iteration order; every module type is registered and imported; option handlers never replace a configuration sub-object another option may have filled; merged global blocks get fresh server keys. Appends assign the field they extend; keyword shortcuts are compared after prefix stripping; duplicate-option flags are tested and set consistently; optional trailing arguments set their field only when present. Durations are parsed with caddy.ParseDuration only; pointers appended per block point to per-block objects. Semantic equality of the adapted JSON "
          "for all generated Caddyfiles is not decided.",
          "DESIGN.md section 4 C15"),
  "C04": ("bounds prover over go/ssa (difference constraints from type widths, definitions, library contracts, loop induction, dominating branches, value numbering) with a reviewed table for the residue; bounded path evaluation of the postgres parser; key/type agreement census; reachability of explicit panics",
